@@ -109,14 +109,11 @@ PROPS = {
             "level_text": "Coq theorems on a transition system of handleConn's reader loop and the writer goroutine (every schedule) and on the CPTR byte encoder/parser - partial: real goroutine "
                           "scheduling and the channel implementation are outside the theorem; tied by running the real code with GOMAXPROCS 1..16, random read segmentations and an strace-stalled writer.",
             "rule": "connections to the real thermal-writer handleConn/writer (driver binary): frame sizes 1-32 bytes (Coq-evaluated byte-for-byte) with 0-520 frames (more than 2 x 256 in flight), "
-                    "GOMAXPROCS in {1,2,4,16}, random read segmentations (1 byte .. several frames), truncated last frame; lag stage: 600-800 frames of 128 KB with every write system call of the daemon "
+                    "GOMAXPROCS in {1,2,4,16}, random read segmentations (1 byte .. several frames), truncated last frame; every third case is ONE writer process serving three connections in a row "
+                    "(the camera reconnects at once, the second time as a camera with another frame size), each connection judged like a single one from the files that appeared while it was served; lag stage: 600-800 frames of 128 KB with every write system call of the daemon "
                     "delayed 0.7 s by strace so that the 256-deep queue fills and drains (judged by the harness' own CPTR parser: files too large for Coq); rotation stage: one connection kept open for 63 s "
                     "(240-280 small frames trickling in) so that the writer starts a second file after newFileInterval, then the camera disconnects: at least two files, all frames once, in order, flushed; non-trivial = at least 2 frames / backlog > 10 logged; distinct by (size, count, content seed)",
-            "trusted_base": TB_COMMON + ["Go channels are FIFO and close() delivers buffered items first; bufio/os file writes; file names have one-second resolution (single connection per run)"]},
-    "C14": {"stages": [{"harness": "HEADER", "corr": "corr.C14h", "n": {"quick": 300, "thorough": 5000}, "shard": 40},
-                       {"harness": "E2E", "corr": "corr.E2E14", "n": {"quick": 6, "thorough": 150}, "shard": 1},
-                       {"harness": "INBAND", "corr": "corr.E2E14", "n": {"quick": 1, "thorough": 1}, "shard": 1}],
-            "theorems": "props/C14.v", "rule": "x", "trusted_base": TB_COMMON},
+            "trusted_base": TB_COMMON + ["Go channels are FIFO and close() delivers buffered items first; bufio/os file writes; an unused file name is picked per file (fix d06182c)"]},
     "C10": {"stages": [{"harness": "FILEREC", "corr": "corr.C10", "n": {"quick": 1, "thorough": 1}, "shard": 40},
                        {"harness": "RECHDR", "corr": "corr.C18lag", "n": {"quick": 12, "thorough": 200}, "shard": 50}],
             "theorems": "props/C10.v",
@@ -126,7 +123,7 @@ PROPS = {
             "rule": "3 scenarios (5 in the thorough tier, with 400-frame recordings that flush the scratch file) on the real CPTVFileRecorder (motion recorder: two finished + one open recording; "
                     "constant recorder; Stop() on connection loss): one case per (system call name, k): the driver is killed on entering that call, the tree is listed and every .cptv decoded, the real "
                     "deleteTempFiles runs in a fresh process, listed and decoded again; one case per observation of a concurrent observer; one namespace-trace case per scenario; "
-                    "non-trivial = killed with temporaries present; distinct by (scenario, system call, k)",
+                    "non-trivial = killed with temporaries present; distinct by (scenario, system call, k) || failed-header stage: the real recorder with a configured device name of 256 / 300 bytes (the CPTV header cannot be written): every StartRecording must fail, a following StopRecording must not give anything a .cptv name, the start-up clean-up removes what is left (header-failure runs); and with valid names: sequences of recordings with starts failing at file creation, every finished file decoded",
             "trusted_base": TB_COMMON + ["strace 6.x inject=...:signal=KILL delivers the kill on entry of the selected system call; power-loss durability, partial write() calls and disk-full are not covered; "
                                          "distinct recordings get distinct millisecond time stamps (hypothesis wf_calls; the harness waits 2 ms between recordings)",
                                          "go-cptv's reader is the decoder: a file 'decodes' if every frame reads without error up to EOF and the count equals the header's NumFrames"]},
